@@ -36,8 +36,8 @@ DUNDER = {"Add": "__add__", "BitAnd": "__and__", "BitOr": "__or__", "BitXor": "_
 def run(ck):
     em = ck.repo.mod(ER)
     mm = ck.repo.mod(MI)
-    ck.rule("R1", "each range handler applies the interval operation of its own operator", floor=10)
-    ck.rule("R2", "unknown inputs and unmodelled operators yield the full range; conditionals the union of their arms", floor=6)
+    ck.rule("R1", "each range handler applies the interval operation of its own operator", floor=6)
+    ck.rule("R2", "unknown inputs and unmodelled operators yield the full range; conditionals the union of their arms", floor=4)
     _structural_rules(ck)
     ck.rule("R5", "the interval primitives the range operations are built on treat bounds as closed (shared with C26-R7)", floor=1)
     from rules.c26 import closed_bound_rules
@@ -141,7 +141,7 @@ def run(ck):
     # x*y and x<<s can exceed the modulus many times: once the overflow test holds, the extreme operands no longer bound the
     # result (monotonicity is lost modulo 2^size), so what the branch returns may not be built from x_min/x_max/y_min/y_max -
     # unless the branch itself tests the span of the operand interval (a single-wrap refinement)
-    ck.rule("R3", "after the overflow test of a multiply/shift-left worker the returned interval does not depend on the operand bounds", floor=2)
+    ck.rule("R3", "after the overflow test of a multiply/shift-left worker the returned interval does not depend on the operand bounds", floor=1)
     from sa.astutil import straightline_env
     BOUNDS = set(["x_min", "x_max", "y_min", "y_max"])
     for q, f in sorted(mm.funcs.items()):
@@ -232,7 +232,7 @@ def _structural_rules(ck):
     slice:   the range of the argument is shifted right by expr.start and masked to the slice's width"""
     from sa.astutil import Resolver
     from sa.prefixsum import accumulators
-    ck.rule("R4", "expr_range places each part of a composition at its own start offset; slices are shifted by their start", floor=3)
+    ck.rule("R4", "expr_range places each part of a composition at its own start offset; slices are shifted by their start", floor=1)
     em = ck.repo.mod(ER)
     fn = em.func("expr_range")
     res = Resolver(fn)
